@@ -616,7 +616,14 @@ pub fn gen_c12(seed: u64, thorough: bool, only: Option<u64>, out: &mut Out) {
     in_nul.push(0);
     in_nl.push(b'\n');
     in_cr.extend_from_slice(b"\r\n");
+    // (for an empty input the flipped-byte variant and the trailing-NUL variant are the same string: each string once)
+    let mut variants: Vec<(Vec<u8>, bool)> = vec![];
     for (inp, srv_new) in [(input2, false), (in_nul, false), (in_nl, false), (in_cr, false), (input.clone(), true)] {
+      if srv_new || !variants.iter().any(|(x, n)| !*n && *x == inp) {
+        variants.push((inp, srv_new));
+      }
+    }
+    for (inp, srv_new) in variants {
       let (mut w2, head2) = World::new(&mds);
       let ww = if srv_new { &mut w2 } else { &mut w };
       let (b, rs) = blind(&inp);
